@@ -39,6 +39,8 @@ func TestMain(m *testing.M) {
 	glue.UserFields()
 	if rp := ev.LoadReplay(); rp != nil {
 		switch rp.Phase {
+		case "incremental_record":
+			ev.RunReplay(rp, runIncremental)
 		case "address_forms":
 			ev.RunReplay(rp, runAddressForm)
 		case "bool_decode_bytes":
@@ -291,6 +293,42 @@ func check(t *testing.T, phase string, c Case, class string) bool {
 	return true
 }
 
+// runIncremental: a[0] selects the five elements, a[1] after how many additions the buffer is first read.
+func runIncremental(a []int) *ev.Failure {
+	start, readAt := a[0], a[1]
+	pool := glue.UserFields()[:int(ref.NumTypes)]
+	r := entities.NewDataRecord(256, 0, 6, false)
+	var fields []ref.Field
+	var vals []ref.Value
+	for k := 0; k < 5; k++ {
+		f := pool[(start+k*5)%len(pool)]
+		v := ref.Value{U: uint64(0x81 + k)}
+		if f.Type.IsBytes() {
+			n := f.Type.Width()
+			if n == 0 {
+				n = 3 + k
+			}
+			v = ref.Value{B: bytes.Repeat([]byte{byte('a' + k)}, n)}
+		}
+		if k >= readAt {
+			if got := len(r.GetBuffer()); got != r.GetRecordLength() {
+				return ev.Failf("record with %d elements: len(GetBuffer())=%d, GetRecordLength()=%d", k, got, r.GetRecordLength())
+			}
+		}
+		if err := r.AddInfoElement(glue.Element(glue.IE(f), f.Type, v)); err != nil {
+			return ev.Failf("AddInfoElement: %v", err)
+		}
+		fields, vals = append(fields, f), append(vals, v)
+		if k+1 >= readAt {
+			want := ref.EncodeDataRecord(nil, fields, vals)
+			if got := r.GetBuffer(); r.GetRecordLength() != len(want) || !bytes.Equal(got, want) {
+				return ev.Failf("record built element by element, buffer first read after %d elements, now %d elements: GetRecordLength()=%d, len(GetBuffer())=%d, the elements encode to %d bytes (first difference at %d)", readAt, k+1, r.GetRecordLength(), len(got), len(want), firstDiff(got, want))
+			}
+		}
+	}
+	return nil
+}
+
 func TestC15(t *testing.T) {
 	// Phase 1: exhaustive 8/16-bit types and booleans.
 	t.Run("exhaustive_small", func(t *testing.T) {
@@ -442,6 +480,22 @@ func TestC15(t *testing.T) {
 			col.Decode(ref.TemplateMessage(ref.Header{Domain: 8}, ref.Template{ID: uint16(5000 + n), Fields: []ref.Field{fixed, sentinel()}}), "127.0.0.1:2")
 			for pos := 0; pos < 3; pos++ {
 				if !check(t, "fixed_announcement_then_variable", Case{F: f, V: ref.Value{B: []byte("eth0")}, Pos: pos}, "after_fixed_length_announcement") {
+					return
+				}
+			}
+		}
+	})
+	// Phase 3f: a record built element by element (NewDataRecord + AddInfoElement, the way a mediator
+	// appends fields to a record it already holds), with the buffer and the length read between the
+	// additions: after every addition the reported length, the buffer and the reference encoding of
+	// the elements added so far agree.
+	t.Run("incremental_record", func(t *testing.T) {
+		for start := 0; start < int(ref.NumTypes); start++ {
+			for _, readAt := range []int{0, 1, 2, 3} { // when GetBuffer is first called: before anything, after 1, 2, 3 elements
+				rec.Case(ev.Hash([]int{-7, start, readAt}), true, "incremental_record")
+				if f := runIncremental([]int{start, readAt}); f != nil {
+					rec.Violation("incremental_record", []int{start, readAt}, f.Msg)
+					t.Errorf("%s", f.Msg)
 					return
 				}
 			}
